@@ -79,6 +79,7 @@ type c11CaseRec struct {
 	Restarts             int
 	RestartsMid          int
 	RestartsAfterVerdict int
+	SharedVerdicts       int
 }
 
 type c11Addrs struct {
@@ -404,6 +405,26 @@ func c11Run(plan c11Plan) c11CaseRec {
 		}
 		rep.Commit()
 		obs := c11Observe(rep.Dump(), ad)
+		for _, vd := range verdicts {
+			// verdicts on a validator whose stake account backs another validator record as well
+			var vi string
+			fmt.Sscanf(vd, "(%s", &vi)
+			vi = strings.TrimSuffix(strings.TrimPrefix(strings.SplitN(vd, ",", 2)[0], "("), "%positive")
+			sa, n := "", 0
+			for _, e := range obs.Vrec {
+				if e[0] == vi {
+					sa = e[1]
+				}
+			}
+			for _, e := range obs.Vrec {
+				if sa != "" && e[1] == sa {
+					n++
+				}
+			}
+			if n > 1 {
+				rec.SharedVerdicts++
+			}
+		}
 		add("end", fmt.Sprintf("(OEnd %d [%s], EBlock (%s))", h, strings.Join(verdicts, "; "), obs.coq()), fmt.Sprintf("end block %d verdicts=%d", h, len(verdicts)), true)
 		if c11In(plan.CrashAfter, bi) || (!plan.NoVerdictCrash && len(verdicts) > 0) {
 			// the process dies after the Commit: the next block runs in a fresh process on the stored state
@@ -432,6 +453,24 @@ func c11RandomPlan(r *rand.Rand, i int) c11Plan {
 	if r.Intn(2) == 0 {
 		verdictAt = 4 + r.Intn(6)
 	}
+	// in two thirds of the verdict histories the convicted validator's stake account backs a second
+	// validator: either the convicted one is the genesis validator (larger share) or the candidate
+	// staked out of a genesis validator's account (smaller share)
+	sharedCand, sharedOwner := -1, -1
+	if verdictAt >= 0 {
+		switch r.Intn(3) {
+		case 0:
+			sharedCand, sharedOwner = 4+r.Intn(2), mal
+		case 1:
+			sharedOwner = mal
+			sharedCand = 4 + r.Intn(2)
+			mal = sharedCand
+		}
+	}
+	voterA, voterB := 1, 2
+	if mal < 4 {
+		voterA, voterB = (mal%3)+1, ((mal+1)%3)+1
+	}
 	wild := r.Intn(3) == 0 // amounts outside [0, 2^63) only in a third of the histories
 	amount := func(kind string) string {
 		if wild && r.Intn(4) == 0 {
@@ -456,13 +495,16 @@ func c11RandomPlan(r *rand.Rand, i int) c11Plan {
 	}
 	for b := 0; b < nb; b++ {
 		blk := []c11Tx{}
+		if sharedCand >= 0 && b == verdictAt-2 {
+			blk = append(blk, c11Tx{Kind: "stake", V: sharedCand, D: sharedOwner, Amount: []string{"1500", "5000", "250000"}[r.Intn(3)]})
+		}
 		if b == verdictAt {
 			blk = append(blk, c11Tx{Kind: "allege", V: 0, Req: fmt.Sprintf("r%d", i), Mal: mal})
 		}
 		if b == verdictAt+1 && verdictAt >= 0 {
 			blk = append(blk, c11Tx{Kind: "vote", V: 0, Req: fmt.Sprintf("r%d", i), Choice: 1})
-			blk = append(blk, c11Tx{Kind: "vote", V: (mal % 3) + 1, Req: fmt.Sprintf("r%d", i), Choice: 1})
-			blk = append(blk, c11Tx{Kind: "vote", V: ((mal + 1) % 3) + 1, Req: fmt.Sprintf("r%d", i), Choice: 1})
+			blk = append(blk, c11Tx{Kind: "vote", V: voterA, Req: fmt.Sprintf("r%d", i), Choice: 1})
+			blk = append(blk, c11Tx{Kind: "vote", V: voterB, Req: fmt.Sprintf("r%d", i), Choice: 1})
 		}
 		if r.Intn(5) == 0 {
 			// burst: several unstakes of the same delegator in one block (same maturity height), from its
@@ -577,6 +619,16 @@ func c11Scripts() []c11Plan {
 	sh.Blocks[4] = []c11Tx{tx("withdraw", 1, "801")}
 	sh.Blocks[5] = []c11Tx{tx("withdraw", 1, "800"), tx("withdraw", 1, "1")}
 	ps = append(ps, sh)
+	// GUILTY verdicts on validators whose stake account backs two validators: first the candidate with
+	// the smaller share (5000 of 3003000), then the genesis validator with the larger share; each
+	// penalty is the configured percentage of the CONVICTED validator's own total
+	sv := c11Plan{Name: "shared_stake_verdicts", Genesis: "default", Mat: 2, Blocks: c11Empty(14)}
+	sv.Blocks[1] = []c11Tx{{Kind: "stake", V: 4, D: 2, Amount: "5000"}}
+	sv.Blocks[3] = []c11Tx{{Kind: "allege", V: 0, Req: "sv1", Mal: 4}}
+	sv.Blocks[4] = []c11Tx{{Kind: "vote", V: 0, Req: "sv1", Choice: 1}, {Kind: "vote", V: 1, Req: "sv1", Choice: 1}, {Kind: "vote", V: 3, Req: "sv1", Choice: 1}}
+	sv.Blocks[6] = []c11Tx{{Kind: "allege", V: 0, Req: "sv2", Mal: 2}}
+	sv.Blocks[7] = []c11Tx{{Kind: "vote", V: 0, Req: "sv2", Choice: 1}, {Kind: "vote", V: 1, Req: "sv2", Choice: 1}, {Kind: "vote", V: 3, Req: "sv2", Choice: 1}}
+	ps = append(ps, sv)
 	// maturity option changed between unstake and maturity: the height fixed at unstake time counts
 	mc := c11Plan{Name: "maturity_change", Genesis: "mature", Mat: 4, Blocks: c11Empty(14)}
 	mc.Blocks[1] = []c11Tx{tx("unstake", 1, "1000")}
@@ -603,6 +655,7 @@ type c11Report struct {
 	Restarts  int            `json:"restarts"`
 	RestartsMid int          `json:"restarts_between_endblock_and_commit"`
 	RestartsAfterVerdict int `json:"restarts_after_verdict_block"`
+	SharedVerdicts int `json:"verdicts_on_shared_stake_account"`
 	Names     []string       `json:"names"`
 }
 
@@ -704,6 +757,7 @@ func c11Main(args []string) int {
 		rep.Restarts += c.Restarts
 		rep.RestartsMid += c.RestartsMid
 		rep.RestartsAfterVerdict += c.RestartsAfterVerdict
+		rep.SharedVerdicts += c.SharedVerdicts
 		for _, blk := range p.Blocks {
 			for _, t := range blk {
 				if t.Kind == "stake" || t.Kind == "unstake" || t.Kind == "withdraw" {
